@@ -10,7 +10,7 @@ def run(ctx):
         ctx.run_shards(b, "TestVerifC04", 16, 900 if ctx.tier == "quick" else 3400, "c04")
     return driver.finish(
         ctx, "fault_enumeration",
-        "three monitors. (A) wire observer: real client <-> recording relay <-> real server for carrier in {tcp, unix, ws, udp(KCP), dns, tcp+tls, unix+tls, wss, "
+        "five monitors. (A) wire observer: real client <-> recording relay <-> real server for carrier in {tcp, unix, ws, udp(KCP), dns, tcp+tls, unix+tls, wss, "
         "stdio and stdio+tls (no relay: flags only), udp+secret} x server certificate {none, good, untrusted|wronghost|expired} x client --secure x client --insecure (+ client without CA); "
         "the application payload is a random 24-byte marker repeated 400x (80x over DNS) in both directions; the capture is de-framed (websocket frames unmasked, "
         "DNS questions/answers decoded with the repository's helpers under every codec, KCP datagrams searched as they are) and searched for any 16-byte window of "
@@ -22,11 +22,21 @@ def run(ctx):
         "garbage, close, 503/200/403, TLS with untrusted/wrong-host/expired certificate falling back to plaintext, ...) + 15 faults of the first answer + wrong/missing "
         "Protocol-Version, against the real client command x --secure x --insecure; oracle: security required => the scripted server never receives the marker in "
         "clear and never serves a logical connection without a completed TLS handshake; StartTLS advertised (token present in the list) => payload never in clear; "
-        "client reports secure => TLS handshake completed. (C) tcp+tls, unix+tls, https, stdio+tls endpoints against a scripted plaintext client and the real client "
-        "with the plain scheme: no 200/101 in clear, no server.session event that is not secure, no logical connection served in plaintext; plus one observation (never judged): "
-        "a hand-written client ignoring the real server's StartTLS offer. Stall rule, no deadlines. "
-        "Distinct = (monitor, carrier/transport, certificate, flags, script, peer); non-trivial = the case produced a wire capture / reached the scripted server.",
+        "client reports secure => TLS handshake completed. (C) tcp+tls, unix+tls, https, stdio+tls endpoints, each once with a key pair and once with a TLS scheme but NO key pair "
+        "(only a CA: the socket kinds then refuse to start, the https and stdio kinds start and must leave every plaintext peer unanswered), against a scripted plaintext client "
+        "(websocket endpoints: the upgrade request first, then, once it is answered, the socketace handshake and the marker in zero-masked binary frames) and the real client "
+        "with the plain scheme x --secure: no 200/101 in clear, no server.session event that is not secure, no logical connection served in plaintext; plus one observation (never judged): "
+        "a hand-written client ignoring the real server's StartTLS offer. "
+        "(D) a TLS upstream (tcp+tls, https) loses its session and a plaintext peer answers the reconnect: the client starts TLS again or sends nothing. "
+        "(E) listener-list composition: the real client command is started (3 fresh starts per case, 8 thorough: the start-up is an interleaving) with 1..8 listeners in configuration order - "
+        "a standard input/output listener (which opens the upstream session by itself during start-up, its application writing from the first instant) alone, first, in the middle or last among "
+        "tcp (numeric and localhost) and unix-socket listeners, or socket listeners only; applications connect after the start-up or hammer the unix sockets from before it - "
+        "over tcp and websocket (thorough: + unix) through the recording relay x server certificate {none, good} x --secure x --insecure; every listener carries a logical connection with the marker "
+        "payload over the shared session; oracle = monitor A's, applied to every physical connection the relay saw. Stall rule, no deadlines. "
+        "Distinct = (monitor, carrier/transport, certificate, flags, script, peer, listener list, eager applications); non-trivial = the case produced a wire capture / reached the scripted server.",
         ["loopback sockets and in-process pipes stand for the network",
          "interpretation (DESIGN.md): a hand-written client that ignores an offered StartTLS against the real server is outside the property",
          "a capability token that only resembles StartTLS (misspelled, hyphenated, with parameter) or sits on a second Capabilities line is not an offer",
-         "KCP parity shards and the AES variant (udp+secret) are searched as they are; TLS record structure is only checked on stream carriers"])
+         "KCP parity shards and the AES variant (udp+secret) are searched as they are; TLS record structure is only checked on stream carriers",
+         "monitor E samples the interleavings of the client's start-up (fresh starts under the scheduler's own timing, no injected delays); it does not enumerate them",
+         "an https endpoint without a key pair may stop accepting at any moment (its listener is garbage-collected): refused, reset and never-answered are all 'nothing completed'"])
